@@ -582,7 +582,40 @@ class Emitter:
             thr = self.s_CXXThrowExpr(skip(a if ta else b), "")[0]
             self.pre.append("if (%s%s) %s" % ("" if ta else "!", ce, thr))
             return self.E(b if ta else a)
-        return "(%s ? %s : %s)" % (self.paren(self.E(c)), self.paren(self.E(a)), self.paren(self.E(b)))
+        # Plain form when both arms are pure expressions. When an arm needs statements of its own (a temporary built by
+        # a constructor, `throw X(..)` as an arm), the ?: becomes `T t; if (c) { ..; t = a; } else { ..; t = b; }` hoisted
+        # before the enclosing statement; only when this ?: is not itself evaluated conditionally.
+        throws = [skip(x).get("kind") == "CXXThrowExpr" for x in (a, b)]
+        if not any(throws):
+            mark = (len(self.pre), self.unit.tmp)
+            try:
+                return "(%s ? %s : %s)" % (self.paren(self.E(c)), self.paren(self.E(a)), self.paren(self.E(b)))
+            except Unsupported:
+                del self.pre[mark[0]:]
+                self.unit.tmp = mark[1]
+        depth = getattr(self, "lazy_depth", 0)
+        if depth != 1:
+            raise Unsupported("?: whose arms need statements, inside a conditionally evaluated expression")
+        ce = self.paren(self.E(c))
+        ct = self.ctype(n)
+        self.unit.tmp += 1
+        tmp = "__t%d" % self.unit.tmp
+        saved, arms = self.pre, []
+        try:
+            self.lazy_depth = 0
+            for x, thr in zip((a, b), throws):
+                self.pre = []
+                if thr:
+                    arms.append(self.s_CXXThrowExpr(skip(x), "")[0])
+                else:
+                    e = self.E(x)
+                    arms.append("{ %s %s = %s; }" % (" ".join(self.pre), tmp, e))
+        finally:
+            self.lazy_depth = depth
+            self.pre = saved
+        self.pre.append("%s %s;" % (ct, tmp))
+        self.pre.append("if (%s) %s else %s" % (ce, arms[0], arms[1]))
+        return tmp
 
     def e_ArraySubscriptExpr(self, n):
         a, b = n["inner"]
@@ -827,6 +860,13 @@ class Emitter:
         if isref:
             ret += "*"
         cname = self.fn_cname(tag, name, ",".join(pcs))  # overloads: rename key "Class__m|<inferred C param types>"
+        # member function templates (clang prints no template arguments at the call): config
+        # template_methods {"Class__method": "arg<i>" | "ret"} names the instantiation after the C type of that
+        # argument / of the result, e.g. Channel::pack<int>(v) -> Channel__pack__int, unpack<bool>() -> Channel__unpack__bool
+        tsel = self.cfg.get("template_methods", {}).get((tag + "__" if tag else "") + name)
+        if tsel is not None:
+            tct = ret if tsel == "ret" else pcs[int(tsel[3:])]
+            cname += "__" + re.sub(r"_+", "_", ident(tct.replace("*", " ptr"))).strip("_")
         pc = (["struct %s*" % tag] if obj is not None else []) + pcs
         self.note_proto(cname, ret, pc, "%s::%s (signature inferred at call site)" % (tag, name))
         self.callees.setdefault(cname, "%s::%s" % (tag, name))
@@ -910,12 +950,12 @@ class Emitter:
         if target is None and getattr(self, "lazy_depth", 0) > 0:
             # under ?: && || the temporary must be built where the expression is evaluated (not hoisted before the
             # statement): GNU statement expression; the exception test is the one after the whole statement
-            pre, avs = self.with_pre(lambda: self.call_args(args, params))
+            pre, avs = self.with_pre(lambda: self.call_args(self.with_cfg_defaults(cn, args), params))
             self.callflag = True
             self.unit.tmp += 1
             t = "__t%d" % self.unit.tmp
             return "({ %s %s; %s %s(%s); %s; })" % (ct, t, " ".join(pre), cn, ", ".join(["&" + t] + avs), t)
-        avs = self.call_args(args, params)
+        avs = self.call_args(self.with_cfg_defaults(cn, args), params)
         self.callflag = True
         if target is None:
             self.unit.tmp += 1
@@ -925,6 +965,22 @@ class Emitter:
         if self.cfg.get("exceptions", True):
             self.pre.append("if (vf_exc) " + self.ret_zero())
         return target
+
+    def with_cfg_defaults(self, cn, args):
+        """default arguments clang does not print (CXXDefaultArgExpr without expression) are taken from the config:
+        default_args {<callee C name>: {<index>: [ctype, C expression]}} -> a literal node the emitter prints as is"""
+        out = []
+        for i, a in enumerate(args):
+            if a.get("kind") == "CXXDefaultArgExpr" and not a.get("inner"):
+                d = self.cfg.get("default_args", {}).get(cn, {}).get(str(i))
+                if d is None:
+                    raise Unsupported("default argument %d in call to %s (add default_args[%s] to the config)" % (i, cn, cn))
+                a = {"kind": "VfLiteral", "text": d[1], "valueCategory": "prvalue"}
+            out.append(a)
+        return out
+
+    def e_VfLiteral(self, n):
+        return n["text"]
 
     e_CXXTemporaryObjectExpr = e_CXXConstructExpr
 
